@@ -11,7 +11,9 @@
 (*                    the tree of s leaves the hash set                     *)
 (*   Admit Solution   the tree is closed, valid and rooted at the start     *)
 (*                    symbol                                                *)
-(*   Admit Enqueue    the tree is a valid (open) derivation tree rooted at  *)
+(*   Admit Enqueue    level = level of the popped state + 1; the constraint  *)
+(*                    is not a disjunction (DNF split happens before);      *)
+(*                    the tree is a valid (open) derivation tree rooted at  *)
 (*                    the start symbol; with enforce_unique_trees_in_queue  *)
 (*                    its shape is not in the hash set; it enters the set   *)
 (*   Admit DiscardDupTree   only with enforce_unique_trees_in_queue and     *)
@@ -31,13 +33,14 @@ VARIABLES cid, l,
           prio,     \* queue snapshot after the last event: sequence of [s |-> state id, r |-> rank of its cost]
           hashes,   \* shapes (trees without ids) in tree_hashes_in_queue
           cur,      \* shape of the tree of the state being processed (last Pop)
+          lvl,      \* level of the state being processed
           saved,    \* queue snapshot saved by a running probe
           diag      \* names of the rules broken so far in this case
-dvars == <<cid, l, prio, hashes, cur, saved, diag>>
+dvars == <<cid, l, prio, hashes, cur, lvl, saved, diag>>
 
 NoTree == [n |-> "", nt |-> FALSE, open |-> FALSE, c |-> <<>>, ch |-> <<>>]
-InitCase(c) == /\ prio = c.q0 /\ hashes = {Shape(c.tree0)} /\ cur = NoTree /\ saved = <<>> /\ diag = {}
-InitCaseP(c) == /\ prio' = c.q0 /\ hashes' = {Shape(c.tree0)} /\ cur' = NoTree /\ saved' = <<>> /\ diag' = {}
+InitCase(c) == /\ prio = c.q0 /\ hashes = {Shape(c.tree0)} /\ cur = NoTree /\ lvl = 0 /\ saved = <<>> /\ diag = {}
+InitCaseP(c) == /\ prio' = c.q0 /\ hashes' = {Shape(c.tree0)} /\ cur' = NoTree /\ lvl' = 0 /\ saved' = <<>> /\ diag' = {}
 Empty == [q0 |-> <<>>, tree0 |-> NoTree]
 DInit == cid = 1 /\ l = 0 /\ InitCase(IF Len(Cases) >= 1 THEN Cases[1] ELSE Empty)
 
@@ -60,6 +63,8 @@ Broken(c, e) ==
          \cup If(c.unique /\ Shape(e.tree) \in hashes, "enqueued-although-tree-in-hash-set")
          \cup If(Sids(e.q) # Sids(prio) \cup {e.sid} \/ e.sid \in Sids(prio), "enqueue-queue-mismatch")
          \cup If(Closed(e.tree) /\ e.ctrue, "complete-state-enqueued-instead-of-returned")
+         \cup If(e.level # lvl + 1, "level-is-not-parent-plus-one")
+         \cup If(e.disj, "disjunction-enqueued")      \* states are split along the DNF before they are queued
     [] e.ev = "Admit" /\ e.kind = "DiscardDupTree" ->
          If(~c.unique, "tree-discard-without-unique-setting") \cup If(Shape(e.tree) \notin hashes, "tree-discarded-but-not-in-hash-set")
          \cup If(Sids(e.q) # Sids(prio), "discard-changed-queue")
@@ -76,6 +81,7 @@ Apply(c, e) ==
                  [] e.ev = "Admit" /\ e.kind = "Enqueue" -> hashes \cup {Shape(e.tree)}
                  [] OTHER -> hashes
   /\ cur' = IF e.ev = "Pop" THEN Shape(e.tree) ELSE cur
+  /\ lvl' = IF e.ev = "Pop" THEN e.level ELSE lvl
   /\ saved' = CASE e.ev = "ProbeBegin" -> <<prio>>
                 [] e.ev = "ProbeEnd" -> <<>>
                 [] OTHER -> saved
